@@ -201,7 +201,7 @@ pub fn run() {
             check_circuit("single-gate-placements", i, &singles[i as usize]);
         });
     }
-    let (nq, depth, n) = t.pick((4usize, 24usize, 1500usize), (6usize, 50usize, 60_000usize));
+    let (nq, depth, n) = t.pick((4usize, 24usize, 6000usize), (6usize, 50usize, 100_000usize));
     par_cases("unitary-exact", n, move |r, i| {
         let p = CircParams::unitary(nq, depth, PhPool::Exact);
         let circ = gen_circuit(r, &p);
@@ -218,6 +218,56 @@ pub fn run() {
         let circ = gen_circuit(r, &p);
         let circ = interleave(r, &circ);
         check_circuit("ancilla-postselect", i, &circ);
+    });
+    // many tiny circuits with heavy ancilla/post-selection use: local simplification during
+    // translation (simplify mode) meets leaves, duplicated neighbourhoods and Clifford phases
+    par_cases("tiny-ancilla-dense", n * 4, move |r, i| {
+        let nqb = 1 + r.below(3);
+        let mut gates = vec![];
+        let mut anc = vec![];
+        for q in 0..nqb {
+            if r.chance(0.5) {
+                gates.push(G::InitAnc(q));
+                anc.push(q);
+            }
+        }
+        let d = r.below(9);
+        for _ in 0..d {
+            let q = r.below(nqb);
+            let g = match r.below(12) {
+                0 | 1 => G::T(q),
+                2 => G::Tdg(q),
+                3 | 4 => G::S(q),
+                5 => G::Sdg(q),
+                6 | 7 => G::H(q),
+                8 => G::Z(q),
+                9 => G::X(q),
+                _ => {
+                    if nqb >= 2 {
+                        let mut b = r.below(nqb);
+                        if b == q {
+                            b = (q + 1) % nqb;
+                        }
+                        if r.chance(0.5) {
+                            G::Cx(q, b)
+                        } else {
+                            G::Cz(q, b)
+                        }
+                    } else {
+                        G::H(q)
+                    }
+                }
+            };
+            gates.push(g);
+        }
+        for q in 0..nqb {
+            if r.chance(0.6) {
+                gates.push(G::PostSel(q));
+            }
+        }
+        let circ = Circ { n: nqb, gates };
+        let circ = interleave(r, &circ);
+        check_circuit("tiny-ancilla-dense", i, &circ);
     });
     par_cases("swap-heavy", n / 2, move |r, i| {
         let mut p = CircParams::unitary(nq.min(4), depth / 2, PhPool::Exact);
